@@ -45,6 +45,11 @@ impl Cfg {
             mk(vec![KfSpec { pos: 0.5, vals: vec![Some(0.5)], easing: None }, KfSpec { pos: 1.0, vals: vec![Some(1.0)], easing: None }]),
         ]
     }
+    /// The first probe wrapped into a `MergedTimeline` (the form every timeline takes inside a state animator).
+    fn merged_probe(&self) -> mina::MergedTimeline<<S1 as Shape>::Tl> {
+        let [p, _] = self.probe();
+        mina::MergedTimeline::of([p])
+    }
     fn total(&self) -> f64 {
         match self.rep.cycles() {
             Some(n) => self.cycle as f64 * n as f64,
@@ -463,6 +468,7 @@ pub fn run(run: &mut Run) {
             let cfg = &grid_cfgs[ci as usize];
             let ts = cfg.ts();
             let probe = cfg.probe();
+            let merged = cfg.merged_probe();
             let cycles = cfg.rep.cycles().unwrap_or(70).min(70) as u32;
             let jmax = (cycles + 2) * (sub as f32 * cfg.cycle) as u32 + (4.0 * sub as f32) as u32;
             let case = |t: f32, what: &str| case_json(STREAM_GRID, ci, vec![("config", cfg.json()), ("t", J::F(t as f64)), ("clause", J::s(what))]);
@@ -511,6 +517,18 @@ pub fn run(run: &mut Run) {
                     }
                 }
                 if j % 16 == 0 {
+                    {
+                        let mut v = S1 { x: 0.25 };
+                        merged.update(&mut v, t);
+                        acc.eval();
+                        if v.x as f64 != m.p {
+                            acc.violation(
+                                "c03:grid-route-merged",
+                                format!("update of the linear probe wrapped in a MergedTimeline gives {} at t={t}, model position {} for {:?}", v.x, m.p, cfg),
+                                case(t, "update-route"),
+                            );
+                        }
+                    }
                     for (pi, probe) in probe.iter().enumerate() {
                         let mut v = S1 { x: 0.25 };
                         probe.update(&mut v, t);
